@@ -116,6 +116,10 @@ def cfg_field(eng, st, field, ty):
     cfg = eng.fn.debug.get("config")
     if cfg is None:
         raise KeyError("no ApplyConfig in %s" % eng.fn.name)
+    if eng.fn.types.get(cfg, "").startswith("&"):
+        ref = eng.read_path(st, cfg, eng.fn.types[cfg])
+        if isinstance(ref, Ref):
+            return eng.read_path(st, "%s.%d" % (ref.target, idx), ty)
     return eng.read_path(st, "%s.%d" % (cfg, idx), ty)
 
 
@@ -133,6 +137,8 @@ def cfg_seeds(fn, fields):
             cfg = fn.debug.get("config")
             if cfg:
                 out.add("(%s.%d: x)" % (cfg, idx))
+                if fn.types.get(cfg, "").startswith("&"):
+                    out.add(cfg)
     return out
 
 
@@ -796,3 +802,127 @@ def vc_rollback_direction(fns, variants, work, fn_pat, tag, sig=None):
     eng.seeds = seeds
     eng.run()
     return summarize(eng, found, {"rollback_call_sites_reached": reached[0]}, work, tag, witness_ok=reached[0] > 0, witness_note="rollback call not reached")
+
+
+# ------------------------------------------------------------------------------------------ C16
+def vc_choose_filename(fns, variants, work):
+    """choose_filename_to_patch: decision table.  Result is the old name iff it is present and (the new one is absent, or both are
+    equal, or the old file is in memory and not deleted, or it is not in memory and exists on disk); otherwise the new name;
+    with neither name present there is no normal return."""
+    fn = find_fn(fns, r"^choose_filename_to_patch$")
+    found, rets = [], [0]
+    deleted_idx = mirvc.struct_field_index("ModifiedFile", "deleted")
+
+    def after_call(eng, st, bb, site, stmt, dst, callee, args, argv):
+        if not dst:
+            return
+        dpath, _ = eng.resolve(st, dst)
+        if re.search(r"Cow<'_, Path> as PartialEq>::eq$", callee):
+            st.store["ghost:eq"] = st.store.get(dpath)
+        elif re.search(r"HashMap::<.*>::get::<", callee):
+            st.store["ghost:get_disc"] = eng.read_path(st, dpath + "#disc", "isize")
+            ref = eng.read_path(st, dpath + "@Some.0", "&ModifiedFile")
+            st.store["ghost:deleted"] = eng.read_path(st, "%s.%d" % (ref.target, deleted_idx), "bool")
+        elif re.search(r"Path::exists$", callee):
+            st.store["ghost:exists"] = st.store.get(dpath)
+
+    def on_return(eng, st, bb):
+        rets[0] += 1
+        res = st.store.get("_0")
+        old_d = eng.read_path(st, "_2#disc", "isize")
+        new_d = eng.read_path(st, "_3#disc", "isize")
+        old_r = eng.read_path(st, "_2@Some.0", "&std::borrow::Cow<'_, std::path::Path>")
+        new_r = eng.read_path(st, "_3@Some.0", "&std::borrow::Cow<'_, std::path::Path>")
+        T, F = z3.BoolVal(True), z3.BoolVal(False)
+        eq = st.store.get("ghost:eq", F)
+        gd = st.store.get("ghost:get_disc")
+        dele = st.store.get("ghost:deleted", F)
+        ex = st.store.get("ghost:exists", F)
+        in_mem = (gd == 1) if gd is not None else F
+        looked = gd is not None
+        old_exists = z3.If(in_mem, z3.Not(dele), ex) if looked else F
+        want_old = z3.And(old_d == 1, z3.Or(new_d == 0, eq, old_exists))
+        want_new = z3.And(new_d == 1, z3.Or(old_d == 0, z3.And(z3.Not(eq), z3.Not(old_exists))))
+        if not isinstance(res, Ref):
+            found.append({"bb": bb, "stmt": "return", "what": "result is not one of the two names", "model": {}, "trace": list(st.trace[-20:])})
+            return
+        if res.target == old_r.target:
+            cond = want_old
+        elif res.target == new_r.target:
+            cond = want_new
+        else:
+            found.append({"bb": bb, "stmt": "return", "what": "result is neither the old nor the new name (%s)" % res.target, "model": {}, "trace": list(st.trace[-20:])})
+            return
+        # the lookups must actually have been made when both names are present and differ
+        ok, model = eng.feasible(st, [z3.Not(cond)])
+        eng.record_query("%s decision" % bb, list(st.pc) + [z3.Not(cond)])
+        if ok:
+            found.append({"bb": bb, "stmt": "return", "what": "wrong name chosen: returns the %s name although the rule says otherwise" % ("old" if res.target == old_r.target else "new"),
+                          "model": model_values(model, ("in_", "c_")), "trace": list(st.trace[-20:])})
+        ok, _ = eng.feasible(st, [old_d == 0, new_d == 0])
+        if ok:
+            found.append({"bb": bb, "stmt": "return", "what": "returns normally although neither name is present", "model": {}, "trace": list(st.trace[-20:])})
+
+    eng = Engine(fns, fn, variants, hooks={"after_call": after_call, "on_return": on_return})
+    eng.run()
+    return summarize(eng, found, {"returns_checked": rets[0]}, work, "c16c", witness_ok=rets[0] >= 4, witness_note="fewer than 4 return paths explored")
+
+
+def vc_direction_from_series(fns, variants, work):
+    """apply_one_file_patch: FilePatch::apply is called with Revert iff the series entry's `reverse` flag is set, and with config.fuzz."""
+    fn = find_fn(fns, r"::apply_one_file_patch$")
+    found, reached = [], [0]
+    rev_idx = mirvc.struct_field_index("SeriesPatch", "reverse")
+
+    def on_stmt(eng, st, bb, s):
+        m = re.match(r"(_\d+) = copy \(\(\*(_\d+)\)\.%d: bool\)$" % rev_idx, s)
+        if m and "SeriesPatch" in eng.fn.types.get(m.group(2), ""):
+            st.ghost = st.ghost | {"rev:" + m.group(1)}
+
+    def on_call(eng, st, bb, site, stmt, dst, callee, args, nxt):
+        if re.search(r"FilePatch(::<[^>]*>)?::apply$", callee):
+            reached[0] += 1
+            revs = [g[4:] for g in st.ghost if g.startswith("rev:")]
+            d, dp, _ = eng.operand(st, args[2])
+            disc = st.store.get(dp + "#disc") if dp else None
+            if not revs or disc is None:
+                found.append({"bb": bb, "stmt": stmt[:160], "what": "apply direction is not derived from the series entry's reverse flag", "model": {}, "trace": list(st.trace[-20:])})
+                return None
+            # the flag's symbol: path condition decides it on this path
+            ref_local = revs[0]
+            # re-read the flag through the same place expression
+            for bb2, stmts in eng.fn.blocks.items():
+                for s_ in stmts:
+                    m = re.match(r"%s = copy (\(\(\*(_\d+)\)\.%d: bool\))$" % (re.escape(ref_local), rev_idx), s_)
+                    if m:
+                        rv, _, _ = eng.operand(st, "copy " + m.group(1))
+                        want = z3.If(rv, z3.BitVecVal(variants["Revert"], 64), z3.BitVecVal(variants["Forward"], 64))
+                        ok, model = eng.feasible(st, [disc != want])
+                        eng.record_query("%s direction" % bb, list(st.pc) + [disc != want])
+                        if ok:
+                            found.append({"bb": bb, "stmt": stmt[:160], "what": "patch applied in a direction that does not follow the series entry's -R flag",
+                                          "model": model_values(model, ("in_",)), "trace": list(st.trace[-20:])})
+            fz, _, _ = eng.operand(st, args[3])
+            cf = cfg_field(eng, st, "fuzz", "usize")
+            if fz is None or not z3.is_bv(fz):
+                found.append({"bb": bb, "stmt": stmt[:160], "what": "fuzz argument is not config.fuzz", "model": {}, "trace": []})
+            else:
+                ok, model = eng.feasible(st, [fz != cf])
+                if ok:
+                    found.append({"bb": bb, "stmt": stmt[:160], "what": "fuzz argument differs from config.fuzz", "model": {}, "trace": []})
+        return None
+
+    eng = Engine(fns, fn, variants, hooks={"on_call": on_call, "on_stmt": on_stmt})
+    seeds = set()
+    for bb, stmts in fn.blocks.items():
+        for s_ in stmts:
+            m = re.match(r"(?:(_\d+) = )?([^=].*?)\((.*)\) -> ", s_)
+            if m and re.search(r"FilePatch(::<[^>]*>)?::apply$", m.group(2)):
+                a = mirvc.split_top(m.group(3))
+                seeds |= set(re.findall(r"_\d+", a[2] + " " + a[3]))
+            m = re.match(r"(_\d+) = copy \(\(\*(_\d+)\)\.%d: bool\)$" % rev_idx, s_)
+            if m:
+                seeds |= {m.group(1), m.group(2)}
+    eng.seeds = seeds | cfg_seeds(fn, ["fuzz"])
+    eng.run()
+    return summarize(eng, found, {"apply_call_sites_reached": reached[0]}, work, "c16d", witness_ok=reached[0] > 0, witness_note="FilePatch::apply not reached")
